@@ -50,6 +50,10 @@ Fixpoint lex (fuel : nat) (asis : bool) (s : str) : option (list tok) :=
       | [] => Some []
       | c :: r =>
           let one (t : tok) (rest : str) := match lex f asis rest with Some l => Some (t :: l) | None => None end in
+          (* as-is only: a numeral written with white space between its parts passes BuildExpr and fails when it is
+             evaluated; it is read as a call of a function that cannot be bound *)
+          let bad (rest : str) := match lex f asis rest with
+                                  | Some l => Some (TName (35%N :: lit "bad-number") :: TLPar :: TRPar :: l) | None => None end in
           if is_xml_ws c then lex f asis r
           else if N.eqb c 40 then one TLPar r else if N.eqb c 41 then one TRPar r
           else if N.eqb c 91 then one TLBr r else if N.eqb c 93 then one TRBr r
@@ -68,18 +72,31 @@ Fixpoint lex (fuel : nat) (asis : bool) (s : str) : option (list tok) :=
             match r with
             | c2 :: r2 =>
                 if is_digit c2 then let '(ds, rest) := span is_digit r in one (TNumber (46%N :: ds)) rest
-                else if N.eqb c2 46 then one TDotDot r2 else one TDot r
+                else if N.eqb c2 46 then one TDotDot r2
+                else if asis && is_xml_ws c2 then
+                  (* as-is: [. 5] is the grammar's Number ("." digits with white space between its
+                     tokens); it builds, and evaluating it is an error *)
+                  match span is_digit (snd (span is_xml_ws r)) with
+                  | (_ :: _, rest) => bad rest
+                  | _ => one TDot r
+                  end
+                else one TDot r
             | [] => one TDot r
             end
           else if is_digit c then
             let '(ds, rest) := span is_digit s in
-            match rest with
+            let '(w1, rest1) := if asis then span is_xml_ws rest else ([], rest) in
+            match rest1 with
             | c2 :: r2 =>
                 if N.eqb c2 46 then
-                  let '(fs, rest2) := span is_digit r2 in
+                  let '(w2, r3) := if asis then span is_xml_ws r2 else ([], r2) in
+                  let '(fs, rest2) := span is_digit r3 in
                   match fs with
                   | [] => if asis then one (TNumber ds) rest else one (TNumber (ds ++ [46%N])) rest2
-                  | _ => one (TNumber (ds ++ 46%N :: fs)) rest2
+                  | _ => match w1, w2 with
+                         | [], [] => one (TNumber (ds ++ 46%N :: fs)) rest2
+                         | _, _ => bad rest2      (* as-is: [2 .0], [2 . 0], [2. 0] *)
+                         end
                   end
                 else one (TNumber ds) rest
             | [] => one (TNumber ds) rest
